@@ -202,6 +202,9 @@ static std::vector<uint64_t> g_fail_ordinals;       // sorted ordinals to fail
 static uint64_t g_fail_from = UINT64_MAX;           // fail every ordinal >= this
 static uint64_t g_faults_hit = 0;
 static uint64_t g_limit_hits = 0;
+// number of library allocation requests that returned NULL so far in this case
+// (injected fault or request above g_alloc_limit = "cannot be satisfied")
+static inline uint64_t alloc_failures() { return g_faults_hit + g_limit_hits; }
 static void (*g_alloc_hook)(char kind, void *p, size_t sz) = nullptr; // C06 yields
 
 static void alloc_init()
@@ -416,9 +419,48 @@ bool vf_scope(const std::string &name, vf::Scope &s);
 int vf_custom(int argc, char **argv);
 
 namespace vf {
+// A case may start with a fault prefix (C16): "\xF7VFLT1", u16 count,
+// u32 fail_from (0xffffffff = none), count x u32 ordinals of library allocation
+// requests that must return NULL.
+static const char FAULT_MAGIC[] = "\xF7VFLT1";
+static size_t parse_fault_prefix(const uint8_t *d, size_t n)
+{
+    g_fail_ordinals.clear();
+    g_fail_from = UINT64_MAX;
+    if (n < 13 || memcmp(d, FAULT_MAGIC, 7) != 0) return 0;
+    size_t cnt = d[7] | (d[8] << 8);
+    uint32_t ff;
+    memcpy(&ff, d + 9, 4);
+    if (n < 13 + 4 * cnt) return 0;
+    if (ff != 0xffffffffu) g_fail_from = ff;
+    for (size_t i = 0; i < cnt; i++) {
+        uint32_t o;
+        memcpy(&o, d + 13 + 4 * i, 4);
+        g_fail_ordinals.push_back(o);
+    }
+    std::sort(g_fail_ordinals.begin(), g_fail_ordinals.end());
+    return 13 + 4 * cnt;
+}
+static void make_fault_prefix(std::vector<uint8_t> &out, const std::vector<uint32_t> &ords, uint32_t fail_from)
+{
+    out.assign(FAULT_MAGIC, FAULT_MAGIC + 7);
+    out.push_back((uint8_t)(ords.size() & 255));
+    out.push_back((uint8_t)(ords.size() >> 8));
+    for (int i = 0; i < 4; i++) out.push_back((uint8_t)(fail_from >> (8 * i)));
+    for (uint32_t o : ords) for (int i = 0; i < 4; i++) out.push_back((uint8_t)(o >> (8 * i)));
+}
 static void run_case(const uint8_t *d, size_t n)
 {
     case_reset();
+    size_t off = parse_fault_prefix(d, n);
+    d += off;
+    n -= off;
+    if (g_trace && off) {
+        std::string f;
+        for (uint64_t o : g_fail_ordinals) f += std::to_string(o) + " ";
+        tracef("fault set: fail allocation ordinals { %s} fail_from=%lld", f.c_str(),
+               g_fail_from == UINT64_MAX ? -1ll : (long long)g_fail_from);
+    }
     try {
         vf_run(d, n);
         if (g_deferred_abandon) throw Abandon{g_deferred_abandon};
@@ -684,6 +726,63 @@ static int engine_g1(const std::string &scope_name, uint64_t state_cap, const st
     return 0;
 }
 
+// G7 (C16): generated scripts x fault sets over the script's allocation ordinals:
+// every single ordinal, every suffix, every pair (N <= pair_max), triples (N <= 8)
+static int engine_g7(uint64_t seed, unsigned worker, uint64_t nscripts, const std::string &outdir,
+                     unsigned pair_max, const char *scriptfile)
+{
+    double t0 = now_s();
+    g_cur.open(outdir + "/cur-g7-" + std::to_string(worker) + ".case");
+    std::unordered_set<uint64_t> hashes;
+    std::vector<Sample> samples;
+    std::vector<uint8_t> c, full, pre, firstnt, rnd;
+    uint64_t evals = 0, nontriv = 0, scripts = 0, sumN = 0, hit_runs = 0;
+    Rng pick(mix_seed(seed, worker, 778));
+    auto one = [&](const std::vector<uint32_t> &ords, uint32_t ff) {
+        make_fault_prefix(pre, ords, ff);
+        full = pre;
+        full.insert(full.end(), c.begin(), c.end());
+        g_cur.put(full.data(), full.size());
+        run_case(full.data(), full.size());
+        evals++;
+        if (g_faults_hit) hit_runs++;
+        if (g_nontrivial) {
+            nontriv++;
+            if (hashes.size() < HASH_CAP) hashes.insert(fnv64(full.data(), full.size()));
+            if (firstnt.empty()) firstnt = full;
+            if (pick.below((uint32_t)std::min<uint64_t>(nontriv, 1u << 30)) == 0) rnd = full;
+        }
+    };
+    for (uint64_t k = 0; k < nscripts; k++) {
+        if (scriptfile) c = read_file(scriptfile);
+        else { Rng r(mix_seed(seed, worker, k)); c.clear(); vf_gen(r, c); }
+        g_cur.put(c.data(), c.size());
+        run_case(c.data(), c.size());
+        evals++;
+        if (g_out_of_scope) continue;
+        uint32_t N = (uint32_t)std::min<uint64_t>(g_alloc_ordinal, 64);
+        scripts++;
+        sumN += N;
+        for (uint32_t i = 0; i < N; i++) one({i}, 0xffffffffu);
+        for (uint32_t i = 0; i < N; i++) one({}, i);
+        if (N <= pair_max)
+            for (uint32_t i = 0; i < N; i++) for (uint32_t j = i + 1; j < N; j++) one({i, j}, 0xffffffffu);
+        if (N <= 8)
+            for (uint32_t i = 0; i < N; i++) for (uint32_t j = i + 1; j < N; j++)
+                for (uint32_t l = j + 1; l < N; l++) one({i, j, l}, 0xffffffffu);
+    }
+    std::vector<uint8_t> none;
+    g_cur.put(none.data(), 0);
+    if (!firstnt.empty()) samples.push_back(take_sample(firstnt));
+    if (!rnd.empty() && rnd != firstnt) samples.push_back(take_sample(rnd));
+    if (samples.empty() && !c.empty()) samples.push_back(take_sample(c));
+    char extra[256];
+    snprintf(extra, sizeof extra, "\"scripts\":%llu,\"alloc_ordinals_total\":%llu,\"runs_with_fault_delivered\":%llu",
+             (unsigned long long)scripts, (unsigned long long)sumN, (unsigned long long)hit_runs);
+    write_stats(outdir + "/stats-g7-" + std::to_string(worker), "g7", evals, nontriv, hashes, samples, now_s() - t0, extra);
+    return 0;
+}
+
 // run every case in a list file (length-prefixed) or directory listing: used
 // for regression replays inside one process
 static int engine_files(int n, char **paths)
@@ -721,6 +820,9 @@ static int common_main(int argc, char **argv)
         return engine_g2(strtoull(argv[a], 0, 0), (unsigned)atoi(argv[a + 1]), strtoull(argv[a + 2], 0, 0), argv[a + 3]);
     if (eng == "g1" && a + 3 < argc)
         return engine_g1(argv[a], strtoull(argv[a + 1], 0, 0), argv[a + 2], argv[a + 3]);
+    if (eng == "g7" && a + 4 < argc)
+        return engine_g7(strtoull(argv[a], 0, 0), (unsigned)atoi(argv[a + 1]), strtoull(argv[a + 2], 0, 0), argv[a + 3],
+                         (unsigned)atoi(argv[a + 4]), a + 5 < argc ? argv[a + 5] : nullptr);
     return vf_custom(argc - a + 1, argv + a - 1);
 }
 } // namespace vf
